@@ -864,6 +864,85 @@ return (_ERRS, _WARNS)
     for s in setx[:1]:
         ok = all(ci.dominates(ci.node_of(fa[0]), ci.node_of(x)) for x in [n for n in walk_no_nested(init.node) if isinstance(n, ast.Expr) and unparse(n.value) == 'self.reset_id_manager()']) if fa else False
         ctx.add('C12.R8', 'BIOGEME.__init__:order', ok, init, 'the formula audit precedes the id plumbing' if ok else 'reset_id_manager precedes the audit', 'order')
+    _variable_audit_reads_the_table(ctx, prog)
+
+
+#: wrappers that keep the elements of a collection of names (membership answers alike)
+_SAME_ELEMENTS_CALLS = {'list', 'set', 'tuple', 'frozenset', 'sorted'}
+_SAME_ELEMENTS_METHODS = {'to_list', 'tolist', 'keys', 'copy', 'unique'}
+
+
+def _database_path(fn: ast.AST, e: ast.expr, root: str) -> list[str] | None:
+    """attribute path of `e` below the name `root` (`list(root.a.b.to_list())` -> ['a', 'b']), locals of `fn` seen through; None when `e` is
+    anything else"""
+    e = inline_locals(fn, e)
+    while True:
+        if isinstance(e, ast.Call) and not e.keywords:
+            if isinstance(e.func, ast.Name) and e.func.id in _SAME_ELEMENTS_CALLS and len(e.args) == 1:
+                e = e.args[0]
+                continue
+            if isinstance(e.func, ast.Attribute) and e.func.attr in _SAME_ELEMENTS_METHODS and not e.args:
+                e = e.func.value
+                continue
+        break
+    path = []
+    while isinstance(e, ast.Attribute):
+        path.append(e.attr)
+        e = e.value
+    if isinstance(e, ast.Name) and e.id == root and path:
+        return path[::-1]
+    return None
+
+
+def _variable_audit_reads_the_table(ctx: Ctx, prog) -> None:
+    """C12.R8 (second half): the audit of a Variable decides "the column exists" on the object the id plumbing and the engine read.
+
+    IdManager.prepare numbers the variables from one attribute of the Database (the table, `database.data`); Variable.set_id_manager looks the
+    name up in that numbering (KeyError when absent) and the engine receives the same table.  The membership test of Variable.audit must
+    therefore be made on the columns of that attribute.  A test made on another attribute that Database fills separately (a record built
+    from the columns at some moment) answers differently as soon as the table is edited: contradiction.  Anything else: not recognised."""
+    V = prog.find_class('Variable', 'expressions')
+    va = V.methods.get('audit') if V is not None else None
+    D = prog.cls('database', 'Database')
+    prep = prog.cls('expressions.idmanager', 'IdManager').methods.get('prepare')
+    if va is None or prep is None:
+        return
+    # the attribute of the Database the id manager takes the names of the variables from
+    read = set()
+    for n in walk_no_nested(prep.node):
+        if isinstance(n, ast.Attribute) and isinstance(n.ctx, ast.Load):
+            p = _database_path(prep.node, n, 'self')
+            if p and len(p) >= 2 and p[0] == 'database':
+                read.add(p[1])
+    read -= set(D.methods)
+    params = va.positional_params()
+    db = params[1] if len(params) > 1 and params[0] == 'self' else (params[0] if len(params) == 1 else None)
+    tests = [n for n in walk_no_nested(va.node) if isinstance(n, ast.Compare) and len(n.ops) == 1 and isinstance(n.ops[0], (ast.In, ast.NotIn))
+             and unparse(inline_locals(va.node, n.left)) == 'self.name']
+    if len(read) != 1 or db is None or len(tests) != 1:
+        ctx.add('C12.R8', 'Variable.audit:columns', None, va, 'shape not recognised - expected: one membership test of self.name in the columns of the table the id manager numbers the variables from', 'columns')
+        return
+    table = next(iter(read))
+    t = tests[0]
+    path = _database_path(va.node, t.comparators[0], db)
+    if path in ([table], [table, 'columns'], [table, 'columns', 'values']):
+        ctx.add('C12.R8', 'Variable.audit:columns', True, (va.file, t.lineno), f'the name of the variable is looked for in the columns of {db}.{table}, the table the id manager numbers the variables from', 'columns')
+        return
+    # another attribute of the Database: a record the class fills by itself (assigned in its methods from something that is not the table itself)
+    separate = False
+    if path and path[0] != table and path[0] not in D.methods:
+        stores = [(g, n) for g in D.methods.values() for n in walk_no_nested(g.node) if isinstance(n, (ast.Assign, ast.AnnAssign)) and n.value is not None
+                  for tg in (n.targets if isinstance(n, ast.Assign) else [n.target]) if unparse(tg) == f'self.{path[0]}']
+        alias = [1 for g, n in stores if (_database_path(g.node, n.value, 'self') or [''])[0] == table]
+        separate = bool(stores) and not alias and not any(path[0] in c.methods for c in D.mro())
+        where_set = sorted({g.qualname for g, n in stores if not (isinstance(n.value, ast.Constant) and n.value.value is None)})
+    if separate:
+        ctx.add('C12.R8', 'Variable.audit:columns', False, (va.file, t.lineno),
+                f'Variable.audit looks for the name of the variable in {db}.{".".join(path)}, a record that Database keeps apart from the table (assigned in {", ".join(where_set) or "Database"}), '
+                f'whereas the id manager numbers the variables from {db}.{table}.columns and the engine receives {db}.{table}: after the table has been edited (column dropped or added) '
+                f'the audit accepts a variable that is absent from the data (bare KeyError later instead of BiogemeError) and refuses one that is present', 'columns', positive=True)
+        return
+    ctx.add('C12.R8', 'Variable.audit:columns', None, (va.file, t.lineno), f'shape not recognised - expected: membership of self.name in the columns of {db}.{table} (found: {unparse(t)[:80]})', 'columns')
 
 
 _X = 'src/biogeme/expressions/'
